@@ -37,6 +37,7 @@ CONSTANTS
   FixRetry,       \* TRUE: model the repaired transient-retry counter (see known finding C14)
   MaxPauses,      \* bound on operator pause / unpause rounds
   MaxRestarts,    \* bound on operator RestartStage requests
+  MaxRegions,     \* bound on CancelRegion requests
   TrustNegative   \* dedup_trust_negative_cache: a negative answer of an authoritative filter skips the durable check
 
 VARIABLES
@@ -119,6 +120,7 @@ PauseTaskM(t)        == Proto("PauseTask", StageOf(t), t)
 ResumeStageM(s)      == Proto("ResumeStage", s, "")
 RestartStageM(s)     == Proto("RestartStage", s, "")
 ContinueParentM(s, ph) == [Proto("ContinueParentStage", s, "") EXCEPT !.phase = ph]
+CancelRegionM(r)     == [Proto("CancelRegion", "", "") EXCEPT !.sig = r]     \* (the region name travels in the `sig` field)
 
 CountKey(pp, typ, s, t) == Cardinality({x \in pp : x[1] = typ /\ x[2] = s /\ x[3] = t})
 
@@ -227,7 +229,7 @@ StageRow0 == [status |-> "NOT_STARTED", ver |-> 0, started |-> FALSE, fired |-> 
               act |-> {"-"}, bypass |-> FALSE, jumps |-> 0, buf |-> <<>>, sig |-> ""]   \* buf: names of buffered signals, sig: _signal_name
 TaskRow0  == [status |-> "NOT_STARTED", ver |-> 0, prog |-> 0, seen |-> {}]   \* seen: signal names a suspending task has counted
 Cnt0      == [crashes |-> 0, withheld |-> 0, sweeps |-> 0, cancels |-> 0, signals |-> 0, early |-> 0,
-              pauses |-> 0, unpauses |-> 0, restarts |-> 0, needSweep |-> FALSE]
+              pauses |-> 0, unpauses |-> 0, restarts |-> 0, regions |-> 0, needSweep |-> FALSE]
 
 Init ==
   /\ wf = [status |-> "NOT_STARTED", canceled |-> FALSE]
@@ -764,6 +766,18 @@ CancelWorkflowTxn ==
   /\ SetWk("hdone") /\ Label("CancelWorkflowTxn")
   /\ UNCHANGED <<wf, st, tk, dlq, claims, ledger, gh, cnt>>
 
+(* handlers/cancel_region.py (WCP-25): one commit - processed mark + a CancelStage per stage of the region that is not
+   complete; nothing is written when there is none.  It looks neither at the workflow's status nor at its cancel flag,
+   and CancelStage pushes nothing: whoever else is still running has to bring the workflow to its end. *)
+InRegion(r) == {s \in DOMAIN st : s \in TopLevel /\ P.region[s] = r /\ st[s].status \notin Complete}
+CancelRegion ==
+  /\ H("CancelRegion")
+  /\ IF Cur.sig = "" \/ InRegion(Cur.sig) = {}
+     THEN NoCommit("CancelRegionNone")
+     ELSE /\ Commit(Map(CancelStageM, InOrder(InRegion(Cur.sig))) \o <<CompleteWorkflowM>>, TRUE)
+          /\ SetWk("hdone") /\ Label("CancelRegion")
+          /\ UNCHANGED <<wf, st, tk, dlq, claims, ledger, gh, cnt>>
+
 (* handlers/jump_to_stage: traversal.py + reset.py + handler.py.  All mutations of one jump, the
    processed mark and the StartStage of the target are ONE transaction. *)
 RECURSIVE Closure(_)
@@ -896,7 +910,7 @@ Handlers ==
   \/ RunTaskGuard \/ RunTaskExec \/ RunTaskResult \/ CompleteTask
   \/ CompleteStage \/ SkipStage \/ CancelStage \/ CompleteWorkflow
   \/ CancelWorkflowFlag \/ CancelWorkflowTxn \/ JumpToStage \/ SignalStage
-  \/ PauseTask \/ ResumeStage \/ RestartStage
+  \/ PauseTask \/ ResumeStage \/ RestartStage \/ CancelRegion
   \/ StartStageCancelSibling \/ StartStageAddChild \/ CompleteStageAddAfter \/ ContinueParent
 
 -----------------------------------------------------------------------------
@@ -990,6 +1004,13 @@ SendCancel ==
   /\ lbl' = [name |-> "SendCancel", mid |-> NoMsg, c |-> TRUE]
   /\ UNCHANGED <<wf, st, tk, dlq, claims, wk, ledger, gh>>
 
+SendCancelRegion(r) ==   \* queue.push(CancelRegion(region = r))
+  /\ EnvOK /\ cnt.regions < MaxRegions /\ r # ""
+  /\ Commit(<<CancelRegionM(r)>>, FALSE)
+  /\ cnt' = [cnt EXCEPT !.regions = @ + 1]
+  /\ lbl' = [name |-> "SendCancelRegion", mid |-> <<"CancelRegion", r, "", 0>>, c |-> TRUE]
+  /\ UNCHANGED <<wf, st, tk, dlq, claims, wk, ledger, gh>>
+
 SendSignal(s, pers) ==
   /\ EnvOK /\ cnt.signals < MaxSignals /\ s \in DOMAIN st
   /\ Commit(<<SignalM(s, pers, cnt.signals + 1)>>, FALSE)
@@ -1039,6 +1060,7 @@ Environment ==
   \/ \E s \in Stages : EarlyStart(s)
   \/ \E s \in SignalTargets, pers \in BOOLEAN : SendSignal(s, pers)
   \/ PauseWorkflow \/ Unpause \/ (\E s \in TopLevel : SendRestart(s))
+  \/ \E r \in {P.region[s] : s \in Stages} : SendCancelRegion(r)
 
 Processor == (\E m \in q : Poll(m)) \/ Dedup \/ DedupTrusted \/ HRet \/ PostMark \/ Ack \/ Withhold \/ HRaise \/ Reschedule
 
